@@ -29,13 +29,17 @@ type ResetProcessor struct {
 	target       interface{}
 	paths        []tree.Path
 	visitedNodes map[*yaml.Node][]string
+	// resolving holds the anchors whose content is currently being walked
+	resolving map[*yaml.Node]bool
 }
 
 // UnmarshalYAML implement yaml.Unmarshaler
 func (p *ResetProcessor) UnmarshalYAML(value *yaml.Node) error {
 	p.visitedNodes = make(map[*yaml.Node][]string)
+	p.resolving = make(map[*yaml.Node]bool)
 	resolved, err := p.resolveReset(value, tree.NewPath())
 	p.visitedNodes = nil
+	p.resolving = nil
 	if err != nil {
 		return err
 	}
@@ -55,6 +59,12 @@ func (p *ResetProcessor) resolveReset(node *yaml.Node, path tree.Path) (*yaml.No
 		if err := p.checkForCycle(node.Alias, path); err != nil {
 			return nil, err
 		}
+		// an anchor referenced (e.g. through a merge key) from inside its own content can never be resolved
+		if p.resolving[node.Alias] {
+			return nil, fmt.Errorf("cycle detected: node at path %s references itself", path)
+		}
+		p.resolving[node.Alias] = true
+		defer delete(p.resolving, node.Alias)
 
 		return p.resolveReset(node.Alias, path)
 	}
